@@ -172,6 +172,34 @@ fn idle_script(pre: &[usize], cut: usize, real_ms: Option<u64>) -> Vec<Step> {
     v
 }
 
+const TAIL_EXTRAS: [&str; 5] = ["", "7", "\r", ";", " "];
+
+fn unterminated_tail(ctx: &mut Ctx, k: usize, extra: &str) {
+    let z: u32 = 0x4B1A2C;
+    let mut bytes = frames_of(x_addr(0));
+    bytes.extend_from_slice(frames::df17(5, z, frames::me_ident(4, 3, frames::callsign_codes("TAIL"))).hex().as_bytes());
+    bytes.extend_from_slice(extra.as_bytes());
+    let script = vec![Step::AcceptSend(bytes)];
+    let rep = run_script(&[], &script, &healthy(), |rows| rows.iter().any(|r| r.key == Y && r.squawk == Some(4521)));
+    ctx.eval();
+    let key = format!("frames + a frame without line feed + {extra:?} + close");
+    let case = || json!({"tail": k});
+    if let Some(m) = &rep.machinery {
+        ctx.machinery(format!("C18 {key}: {m}"));
+        return;
+    }
+    if !rep.alive {
+        ctx.violation("C18/reader-stopped", &key, || format!("{key}: the reader thread ended ({:?})", rep.reader_result), case);
+        return;
+    }
+    let row = rep.final_table.iter().find(|r| r.key == z);
+    let want = extra != "7"; // one digit too many: 29 digits are no frame
+    let got = row.is_some_and(|r| r.ais.as_deref() == Some("TAIL"));
+    if want != got || (!want && row.is_some()) {
+        ctx.violation("C18/unterminated-last-line", &key, || format!("{key}: the last line of the closed connection {} be taken as the frame of {z:06X}; row present: {}, callsign {:?}", if want { "must" } else { "must not" }, row.is_some(), row.and_then(|r| r.ais.clone())), case);
+    }
+}
+
 fn eval_script(ctx: &mut Ctx, syms: &[usize], partial_len: usize) {
     let script: Vec<Step> = syms.iter().enumerate().map(|(k, s)| step_of(*s, k, partial_len)).collect();
     eval_steps(ctx, script, json!({"script": syms, "partial_len": partial_len}), partial_len);
@@ -422,6 +450,15 @@ fn run(ctx: &mut Ctx) {
             }
         }
     }
+    // the peer closes the connection after a last line that has no line feed: a complete frame there is a line
+    // like any other (decoded), the same frame with one digit too many is not a frame
+    for (k, extra) in TAIL_EXTRAS.iter().enumerate() {
+        job += 1;
+        if ctx.mine(job) {
+            ctx.count("unterminated-last-line");
+            unterminated_tail(ctx, k, extra);
+        }
+    }
     // a healthy connection that is silent for longer than every socket time-out the reader set (time-outs
     // compressed 100:1), at a line boundary and in the middle of a line, fresh and after each kind of fault
     let stream_len = frames_of(x_addr(0)).len();
@@ -462,6 +499,11 @@ fn run(ctx: &mut Ctx) {
 fn replay(ctx: &mut Ctx, case: &Value) {
     if let Some(sym) = case.get("cli").and_then(|x| x.as_u64()) {
         cli_script(ctx, sym as usize);
+        return;
+    }
+    if let Some(k) = case.get("tail").and_then(|x| x.as_u64()) {
+        let k = k as usize % TAIL_EXTRAS.len();
+        unterminated_tail(ctx, k, TAIL_EXTRAS[k]);
         return;
     }
     if let Some(cut) = case.get("idle_cut").and_then(|x| x.as_u64()) {
